@@ -29,10 +29,10 @@ CLAIMS = {
         'address; plus contracts on Assembler.__init__ and the CLI entry (window/fill parameters reach the engine unchanged).',
    note='The closed form of the map over all lines follows from the per-line block contract by induction (not machine-checked); '
         'file writing itself (open/write) is outside the contract; AssemblerModel construction is assumed.'),
- 'C04': dict(tech='contract-based deductive verification (pyvc + z3): loop invariant of the engine\'s second pass',
+ 'C04': dict(tech='contract-based deductive verification (pyvc + z3): loop invariant of the engine\'s second pass + AST audit of its sortedness precondition',
    text='Block contract with an inductive invariant on the real second-pass loop: if it completes, all byte-producing lines '
         '(including predefined data blocks, which are in the same sorted list) occupy pairwise disjoint address ranges.',
-   note='Precondition (sorted, distinct lines) is established by list.sort and the loader (assumed). The converse direction '
+   note='Precondition (sorted, distinct lines): an AST audit of the current engine source accepts only `<list>.sort(key=lambda x: x.address)` as the last statement touching the list before the second pass (list.sort itself trusted); distinctness comes from the loader (assumed). The converse direction '
         '(disjoint programs are never rejected) is covered only where it is local: MemoryZoneManager.create_zone rejects exactly a taken name / a zone '
         'outside GLOBAL (overlapping zones are not rejected), the size a composite (macro) instruction reserves equals what it emits, and every override of '
         'address / set_start_address / byte_size / generate_bytes found in the source is verified against the abstract line contract.'),
